@@ -1,6 +1,7 @@
 """C20 Order book."""
 import random
 from ..comp import orderbook as OB
+from ..comp import obseq as OBS
 
 ID = 'C20'
 P = 'EAO.Properties.C20'
@@ -44,7 +45,13 @@ def scenarios(seed, tier):
     rnd = random.Random(seed * 7919 + 20)
     for i in range(n):
         yield 'ob%d' % i, OB.gen_case(random.Random(rnd.getrandbits(48)), with_portfolio=(rnd.random() < 0.5))
+    # several order books in one portfolio, the same objects set up again after edits (comp/obseq.py)
+    rnd2 = random.Random(seed * 7919 + 2020)
+    for i in range(240 if tier == 'quick' else 1440):
+        yield 'books%d' % i, OBS.gen_case(random.Random(rnd2.getrandbits(48)))
 
 
 def run_case(case, drv):
+    if case.get('stream') == 'books':
+        return OBS.run_case(case, drv)
     return OB.run_case(case, drv)
